@@ -248,11 +248,17 @@ def extract(scratch):
     return rows
 
 
+def redis_cases():
+    # the redis write must be one command whatever the size (values above typical chunking thresholds included)
+    rs = np.random.RandomState(12345)      # incompressible, so that the encoded value really is that large
+    return cases() + [('bytes-9MiB', rs.bytes(9 * 1024 * 1024 + 17), False), ('npy-10MB', rs.random_sample(1300000), False)]
+
+
 def redis_commands(probe=None):
     """mutating commands on the result key sent by the real redis_store.dump (overwrite of an existing value), per case"""
     from jugverif import fakeredis
     out = []
-    for name, value, compress in cases():
+    for name, value, compress in redis_cases():
         srv = fakeredis.FakeServer()
         st = fakeredis.make_store(srv)
         st.dump(['old', 1], KEY)
